@@ -20,7 +20,7 @@ if "--no-playback" in sys.argv:
     env["VERIF_PLAYBACK"] = "0"
 res = {}
 for p in props:
-    pr = subprocess.run(["/verif/check", p], env=env, capture_output=True, text=True)
+    pr = subprocess.run([os.path.join(os.path.dirname(os.path.dirname(os.path.abspath(__file__))), "check"), p], env=env, capture_output=True, text=True)
     res[p] = pr.returncode
     lines = [l for l in pr.stdout.split("\n") if l.startswith(("VIOLATION", "  failed obligation", "UNDECIDED", "KNOWN", p))]
     print("== %s %s rc=%d" % (name, p, pr.returncode))
